@@ -378,3 +378,11 @@ func Counter() Macro {
 func Constant(v tlx.Val) Macro {
 	return Macro{Read: func(_ *Store, cur tlx.Val, _ string) (tlx.Val, tlx.Val, bool) { return cur, v, true }}
 }
+
+// CyclicReads: dqueue's stream macro: every read advances the variable modulo bound and yields it.
+func CyclicReads(bound int) Macro {
+	return Macro{Read: func(_ *Store, cur tlx.Val, _ string) (tlx.Val, tlx.Val, bool) {
+		n := tlx.Int((cur.I + 1) % int64(bound))
+		return n, n, true
+	}}
+}
